@@ -242,6 +242,21 @@ func c06Configs(c *c06Case) (cc, sc *gmtls.Config, err error) {
 			break
 		}
 		sig, enc, rsaC := f.sig, f.enc, f.rsa
+		if c.Source == "mixed" {
+			gs := gmtls.NewGMSupport()
+			gs.EnableMixMode()
+			sc = &gmtls.Config{GMSupport: gs, Certificates: []gmtls.Certificate{f.rsa},
+				GetCertificate: func(h *gmtls.ClientHelloInfo) (*gmtls.Certificate, error) {
+					for _, v := range h.SupportedVersions {
+						if v == gmtls.VersionGMSSL {
+							return &sig, nil
+						}
+					}
+					return nil, nil
+				},
+				GetKECertificate: func(*gmtls.ClientHelloInfo) (*gmtls.Certificate, error) { return &enc, nil }}
+			break
+		}
 		sc, err = gmtls.NewBasicAutoSwitchConfig(&sig, &enc, &rsaC)
 		if err != nil {
 			return nil, nil, err
@@ -269,6 +284,10 @@ func c06Configs(c *c06Case) (cc, sc *gmtls.Config, err error) {
 			cc.Certificates = []gmtls.Certificate{rg.sm2}
 		case "chain":
 			cc.Certificates = []gmtls.Certificate{rg.chainSM2}
+		case "chain_leaf":
+			cl := rg.chainSM2
+			cl.Leaf, _ = x509.ParseCertificate(cl.Certificate[0])
+			cc.Certificates = []gmtls.Certificate{cl}
 		}
 	} else {
 		cc = &gmtls.Config{RootCAs: f.rsaCA, ServerName: "localhost", MaxVersion: gmtls.VersionTLS12}
@@ -279,6 +298,10 @@ func c06Configs(c *c06Case) (cc, sc *gmtls.Config, err error) {
 			cc.Certificates = []gmtls.Certificate{rg.rsa}
 		case "chain":
 			cc.Certificates = []gmtls.Certificate{rg.chainRSA}
+		case "chain_leaf":
+			cl := rg.chainRSA
+			cl.Leaf, _ = x509.ParseCertificate(cl.Certificate[0])
+			cc.Certificates = []gmtls.Certificate{cl}
 		}
 	}
 	cc.CipherSuites = suiteList(c.Csuites)
